@@ -6,7 +6,8 @@
    any function assigns them.  Gen/ImportsSrc.v: updateImports sorts before it names. *)
 From Coq Require Import List String Arith Bool.
 Import ListNotations.
-From DV Require Import Model.Conc Proofs.ConcProofs Gen.Access Gen.ImportsSrc.
+From DV Require Import Model.Conc Proofs.ConcProofs Gen.Access Gen.ImportsSrc
+  Model.Resolvers Model.Decision Model.DecisionInterp Gen.DecisionSrc Proofs.DecisionProofs.
 Local Open Scope string_scope.
 Local Open Scope list_scope.
 
@@ -25,6 +26,18 @@ Proof. vm_compute. reflexivity. Qed.
 Theorem C16_shared_state_is_the_per_file_cache :
   forallb (fun a => match a with (_, f, _, _) => String.eqb f "files" || String.eqb f "RestorerResolver" end) goast_accesses = true.
 Proof. vm_compute. reflexivity. Qed.
+
+(* The package-name resolvers that may be shared read-only (guess, simple) are pure: their
+   ResolvePackage methods translate into decision programs -- guarded returns over the receiver map
+   and the argument; an assignment, a map write or any other statement is outside that language
+   and would show as DUnknown -- and compute the models (a map lookup; for guess, else the last
+   element of the path) for every map and path. *)
+Theorem C16_name_resolvers_are_pure_functions_of_their_map :
+  pkgres_vocabulary_ok guess_resolvepackage_src && pkgres_vocabulary_ok simple_resolvepackage_src = true /\
+  (forall m p, out_string (pkgres_syms m p) (run (fun q => str_case q (pkgres_preds m p) false) guess_resolvepackage_src) = guess_resolve m p) /\
+  (forall m p, out_string (pkgres_syms m p) (run (fun q => str_case q (pkgres_preds m p) false) simple_resolvepackage_src) =
+               match simple_resolve m p with Some n => n | None => "<error>" end).
+Proof. split; [vm_compute; reflexivity|]. split; [exact guess_source_is_model|exact simple_source_is_model]. Qed.
 
 (* No package-level variable of the module is assigned by any function: decorators and
    restorers of different goroutines share no other mutable state. *)
@@ -66,6 +79,7 @@ Proof. vm_compute. repeat split. Qed.
 
 Print Assumptions C16_shared_resolver_accesses_hold_the_mutex.
 Print Assumptions C16_shared_state_is_the_per_file_cache.
+Print Assumptions C16_name_resolvers_are_pure_functions_of_their_map.
 Print Assumptions C16_no_package_level_state_is_written.
 Print Assumptions C16_locked_accesses_are_ordered.
 Print Assumptions C16_cache_is_transparent.
